@@ -117,6 +117,22 @@ Theorem C08_submatrix : forall hS hM sr sc er ec mem,
 Proof. exact w_submatrix_fixed_full. Qed.
 Print Assumptions C08_submatrix.
 
+(** PARTIAL.  Full statement wanted (mzd_submatrix accepts any S with S->nrows >= nrows, S->ncols >= ncols):
+      valid hS mem -> valid hM mem -> er - sr <= h_nrows hS -> ec - sc <= h_ncols hS -> … ->
+      exists m', w_submatrix_fixed hS hM sr sc er ec mem = Ok m' /\
+        kernel_post hS mem (msub_into (abs hS mem) (msub (abs hM mem) sr sc (er - sr) (ec - sc))) m'.
+    Proven only for a destination of exactly the block's dimensions (below, = C08_submatrix).  For a
+    WIDER destination the unaligned path is FALSE in the C code (it masks with S->high_bitmask):
+    Properties_C09.C09_submatrix_unaligned_wider_refuted; the aligned path with a wider / taller S is
+    not proven. *)
+Theorem C08_submatrix_larger_destination_partial : forall hS hM sr sc er ec mem,
+  valid hS mem -> valid hM mem -> h_nrows hS = er - sr -> h_ncols hS = ec - sc ->
+  sr <= er -> er <= h_nrows hM -> ec <= h_ncols hM -> sc < ec -> wdisjoint hS hM ->
+  exists m', w_submatrix_fixed hS hM sr sc er ec mem = Ok m' /\
+             kernel_post hS mem (msub (abs hM mem) sr sc (er - sr) (ec - sc)) m'.
+Proof. exact w_submatrix_fixed_full. Qed.
+Print Assumptions C08_submatrix_larger_destination_partial.
+
 Theorem C08_submatrix_fresh : forall hM sr sc er ec mem,
   valid hM mem -> sr <= er -> er <= h_nrows hM -> ec <= h_ncols hM -> sc < ec ->
   exists m' hS, w_submatrix_fixed_fresh hM sr sc er ec mem = Ok (m', hS) /\
